@@ -35,6 +35,10 @@ func main() {
 		raceChild(os.Args[2:])
 		return
 	}
+	if len(os.Args) > 1 && os.Args[1] == "refchild" {
+		refChild(os.Args[2:])
+		return
+	}
 	lib.Main("C07", runC07)
 }
 
@@ -63,6 +67,8 @@ type c07in struct {
 	Mode   string     `json:"mode,omitempty"`
 	Seed   int64      `json:"seed,omitempty"`
 	Lookup *lookupSet `json:"lookup,omitempty"`
+	// history failures: the ordered request list (neighbours, then the target)
+	History *history `json:"history,omitempty"`
 	// look-up failures: "nested-assets" | "rep-substring" | "" (see ambiguity)
 	Ambiguity string `json:"ambiguity,omitempty"`
 }
@@ -317,7 +323,7 @@ func runC07(c *lib.Ctx) error {
 		return replayC07(c)
 	}
 	rb := startRaceBuild(c)
-	nInst := 3
+	nInst := 2
 	if c.Thorough() {
 		nInst = 12
 	}
@@ -328,6 +334,11 @@ func runC07(c *lib.Ctx) error {
 	for _, f := range fails {
 		c.Fail(f.Case, f.Key, f.What, f.Input)
 	}
+	nh, err := runHistories(c)
+	if err != nil {
+		return err
+	}
+	n += nh
 	nl, distinct, err := runLookup(c)
 	if err != nil {
 		return err
@@ -335,7 +346,7 @@ func runC07(c *lib.Ctx) error {
 	nr := racePart(c, rb)
 	c.Res.Evaluations = n + nl + nr
 	c.Res.DistinctNontrivial = distinct
-	c.Res.Rule = "mix: every MPD/init/media/patch URL over the bundled assets (option sets incl. SegmentTimeline, periods, patch, DRM, low-latency chunks, generated subtitles, SCTE-35; newest and older segments at several instants) served by a fresh server, then twice in shuffled order from 16 goroutines by the same server, by a second fresh server and by a cache-loaded server: (status, content type, body) compared per URL. lookup: generated vodroots with nested/prefix-related asset paths and representation ids contained in each other, each URL 2x25 times on fresh servers, answering object compared with the Coq model. race: the mix and the ingest API under the Go race detector. distinct = distinct (vodroot, URL) look-up cases plus distinct mix URLs; non-trivial = answered 200"
+	c.Res.Rule = "history: for one target request of every family (MPD in the three addressing modes, multi-period, thumbnails, init, video/audio/subtitle media by number and time, chunked, ECCP, every DRM package of the bundled configuration, generated subtitles, patch) and every neighbour kind (each other value of each option family, other instants, failing variants, repeats, sibling representation/asset, /patch and /urlgen forms): neighbours then target on a long-lived instance, sequentially and from 8 goroutines, answer compared with a fresh process asked the target only. mix: every MPD/init/media/patch URL over the bundled assets (option sets incl. SegmentTimeline, periods, patch, DRM, low-latency chunks, generated subtitles, SCTE-35; newest and older segments at several instants) served by a fresh server, then twice in shuffled order from 16 goroutines by the same server, by a second fresh server and by a cache-loaded server: (status, content type, body) compared per URL. lookup: generated vodroots with nested/prefix-related asset paths and representation ids contained in each other, each URL 2x25 times on fresh servers, answering object compared with the Coq model. race: the mix and the ingest API under the Go race detector. distinct = distinct (vodroot, URL) look-up cases plus distinct mix URLs; non-trivial = answered 200"
 	return nil
 }
 
@@ -345,8 +356,29 @@ func replayC07(c *lib.Ctx) error {
 		return err
 	}
 	switch in.Kind {
+	case "history":
+		if in.History == nil {
+			return fmt.Errorf("replay: no history")
+		}
+		if err := replayHistory(c, in); err != nil {
+			return err
+		}
+		if len(c.Res.OracleFailures) == 0 {
+			// the state that matters may have been left by earlier histories of the run: run them all
+			if _, err := runHistories(c); err != nil {
+				return err
+			}
+			var keep []lib.Failure
+			for _, f := range c.Res.OracleFailures {
+				if strings.HasSuffix(f.Case, in.URL) {
+					keep = append(keep, f)
+					fmt.Printf("replay C07: %s: %s\n", f.Key, f.What)
+				}
+			}
+			c.Res.OracleFailures = keep
+		}
 	case "mix":
-		nInst := 3
+		nInst := 2
 		if c.Thorough() {
 			nInst = 12
 		}
